@@ -184,7 +184,62 @@ static bool library_usable() {
   return rc == ERROR_SUCCESS && rec.text.find("MATCH default:u") != std::string::npos;
 }
 
+// A scan-time limit hit on a scanner must not leave that scanner broken: hit the limit, then scan harmless data with
+// the SAME scanner and compare with a fresh one.
+static void run_scanner_after_limit(Stats& st, std::set<std::string>& reported) {
+  struct L { const char* name; const char* rules; std::string bomb; std::string benign; uint32_t stack; };
+  std::vector<L> ls = {
+    {"re-fibers", "rule f { strings: $r = /([a-z0-9_-]{1,32}\\.?){1,16}@example\\.com/ $q = /x(a{1,3}){1,400}y/ condition: any of them }\nrule g { strings: $s = /be[a-z]+gn/ condition: $s }", "xx " + std::string(60, 'a') + "@example.com x" + std::string(3000, 'a') + "y", "a benign text short@example.com xaay", 0},
+    {"stack-size", "rule s { condition: ((((((((((((((((((((1 + 1) + 1) + 1) + 1) + 1) + 1) + 1) + 1) + 1) + 1) + 1) + 1) + 1) + 1) + 1) + 1) + 1) + 1) + 1) + 1) > filesize or filesize > 3 }", "12", "a benign text", 24},
+  };
+  for (auto& l : ls) {
+    if (l.stack) yr_set_configuration_uint32(YR_CONFIG_STACK_SIZE, l.stack);
+    YR_RULES* r = compile_simple(l.rules);
+    YR_SCANNER* sc = NULL; yr_scanner_create(r, &sc);
+    Recorder r1; yr_scanner_set_callback(sc, recorder_callback, &r1); int rc1 = yr_scanner_scan_mem(sc, (const uint8_t*) l.bomb.data(), l.bomb.size());
+    Recorder r2; yr_scanner_set_callback(sc, recorder_callback, &r2); int rc2 = yr_scanner_scan_mem(sc, (const uint8_t*) l.benign.data(), l.benign.size());
+    yr_scanner_destroy(sc);
+    Recorder r3; int rc3 = yr_rules_scan_mem(r, (const uint8_t*) l.benign.data(), l.benign.size(), 0, recorder_callback, &r3, 0);
+    yr_rules_destroy(r);
+    if (l.stack) yr_set_configuration_uint32(YR_CONFIG_STACK_SIZE, 16384);
+    st.runs += 3; st.c[std::string("scanner_after_limit.") + l.name]++; if (rc1 != ERROR_SUCCESS) st.c["faults_fired.limit_exceeded"]++;
+    Hash64 h; h.add("after-limit"); h.add(l.name); st.hash(h.h);
+    J rp = J::obj(); rp.set("engine", "sim_clock"); rp.set("mode", "limits"); rp.set("boundary", "@scanner-after-limit");
+    if (rc1 == ERROR_SUCCESS) st.c["probe.scan_limit_not_reached"]++;
+    if (rc2 != rc3 || r2.text != r3.text) emit_c15("unusable-after-limit", std::string("boundary|") + l.name + "|same-scanner-unusable-afterwards", std::string(l.name) + ": first scan returned " + yr_error_name(rc1) + "; the next scan of harmless data on the same scanner returned " + yr_error_name(rc2) + ", a fresh scanner " + yr_error_name(rc3), rp, reported, st);
+  }
+}
+
+// Evaluation-stack boundary for every kind of loop: sweep the configured stack size across the point where the
+// condition just fits; each size must give either the stack-overflow error or the right verdict, never a memory error.
+static void run_stack_sweep(Stats& st, std::set<std::string>& reported) {
+  const char* loops[] = {"for any i in (1..3) : ( i == 2 )", "for any e in tests.integer_array : ( e == 2 )", "for any k, v in tests.struct_dict : ( k == \"foo\" )", "for any k, v in tests.empty_struct_dict : ( k == \"foo\" )", "for any s in (\"a\", \"b\") : ( s == \"b\" )"};
+  for (int li = 0; li < 5; li++) for (int depth : {0, 3, 7}) {
+    std::string c = loops[li]; for (int d = 0; d < depth; d++) c = "true and (1 + 2 == 3 and (" + c + "))";
+    int le = 0; YR_RULES* r = NULL;
+    if (compile_err("import \"tests\"\nrule w { condition: " + c + " or filesize < 0 }", le, &r) || !r) { st.c["probe.stack_sweep_rule_did_not_compile"]++; continue; }
+    bool seen_ok = false;
+    for (uint32_t sz = 4; sz <= 40; sz++) {
+      yr_set_configuration_uint32(YR_CONFIG_STACK_SIZE, sz);
+      IsoResult iso = sim_isolate([&] { Recorder rec; std::string b = "x"; int rc = yr_rules_scan_mem(r, (const uint8_t*) b.data(), 1, 0, recorder_callback, &rec, 0); iso_emit(std::string(yr_error_name(rc)) + "\n"); }, 30);
+      st.runs++; st.c["stack_sweep_points"]++; Hash64 h; h.add("stack"); h.addu(li); h.addu(depth); h.addu(sz); st.hash(h.h);
+      std::string res = iso.out.substr(0, iso.out.find('\n'));
+      J rp = J::obj(); rp.set("engine", "sim_clock"); rp.set("mode", "limits"); rp.set("boundary", "@stack-sweep");
+      std::string at = "stack size " + std::to_string(sz) + ", loop kind " + std::to_string(li) + ", nesting " + std::to_string(depth) + ": ";
+      if (iso.kind != 0) emit_c15("limit-memory-error", "boundary|stack-sweep|" + sim_crash_signature(iso).substr(0, 60), at + iso.err.substr(0, 1200), rp, reported, st);
+      else if (res == "EXEC_STACK_OVERFLOW") { st.c["faults_fired.limit_exceeded"]++; if (seen_ok) emit_c15("limit-not-monotone", "boundary|stack-sweep|overflow-above-a-working-size", at + "overflow although a smaller stack sufficed", rp, reported, st); }
+      else if (res == "SUCCESS") seen_ok = true;
+      else emit_c15("limit-wrong-error", "boundary|stack-sweep|error=" + res, at + res, rp, reported, st);
+    }
+    yr_set_configuration_uint32(YR_CONFIG_STACK_SIZE, 16384);
+    yr_rules_destroy(r);
+  }
+}
+
 static void run_boundaries(Stats& st, std::set<std::string>& reported, const std::string& only = "") {
+  if (only.empty() || only == "@scanner-after-limit") run_scanner_after_limit(st, reported);
+  if (only.empty() || only == "@stack-sweep") run_stack_sweep(st, reported);
+  if (!only.empty() && only[0] == '@') return;
   std::vector<Lim> lims;
   lims.push_back({"loop-nesting", YR_MAX_LOOP_NESTING, [](int n, int& e, int& le, int& rc) { std::string c = "true"; for (int i = n; i >= 1; i--) c = "for any v" + std::to_string(i) + " in (0..1) : ( " + c + " )"; e = compile_err("rule x { condition: " + c + " }", le); rc = 0; }, {ERROR_LOOP_NESTING_LIMIT_EXCEEDED}});
   lims.push_back({"strings-per-rule", 8, [](int n, int& e, int& le, int& rc) { yr_set_configuration_uint32(YR_CONFIG_MAX_STRINGS_PER_RULE, 8); std::string s = "rule x { strings:\n"; for (int i = 0; i < n; i++) s += "$s" + std::to_string(i) + " = \"str_" + std::to_string(i) + "_\"\n"; e = compile_err(s + "condition: any of them }", le); yr_set_configuration_uint32(YR_CONFIG_MAX_STRINGS_PER_RULE, 10000); rc = 0; }, {ERROR_TOO_MANY_STRINGS}});
